@@ -6,22 +6,31 @@ specification `RouteEquiv` (exhaustive over the key bits the tables look at)
 evaluated on the implementation's own output tables."""
 
 CLAIM = dict(
-    text=("Machine-checked proof (Lean 4) over ALL tables: first-match/default-route semantics; default-route removal "
-          "preserves RouteEquiv for any ordered table and never lengthens it; applying a merge that passes the up- and "
-          "down-check preserves the ordered-covering invariant (hence RouteEquiv); length and target/MinimisationFailed "
-          "clauses of every minimiser and of the method chain. Tied to the code by exact equality of the output tables "
-          "and alias dictionaries of every minimiser on generated orthogonal / generality-sorted tables, and by the Lean "
-          "RouteEquiv predicate evaluated exhaustively over the used key bits on every table the implementation returns."),
+    text=("Machine-checked proof (Lean 4) over ALL tables (any number of entries, any 32-bit keys/masks incl. ill-formed "
+          "ones, any routes and sources): first-match/default-route semantics; default-route removal preserves RouteEquiv "
+          "for ANY ordered table; _Merge.apply preserves the ordered-covering invariant under the up-/down-check "
+          "conditions (apply_equiv); _refine_merge establishes exactly those conditions on a generality-sorted table "
+          "(refine_ok, with the binary-search insertion index proved correct and monotone); hence ordered_covering, "
+          "ordered_covering.minimise, minimise_table (any method list) and minimise_tables preserve RouteEquiv for every "
+          "orthogonal or generality-sorted table; results are never longer; with a target the result meets it or "
+          "MinimisationFailedError carries the target and the best size reached; all loops terminate (no other outcome "
+          "exists). The exhaustive oracle run on the implementation's tables is proved equivalent to RouteEquiv over all "
+          "2^32 keys. Tied to the code by exact equality of output tables and alias dictionaries of every minimiser, of "
+          "_get_best_merge and _get_insertion_index, on generated tables, and by that oracle on every returned table."),
     design="3/C04",
-    note=("_get_insertion_index modelled with fixes/c04-empty-table.diff; while-loops of _refine_downcheck and "
-          "ordered_covering carry fuel with an explicit out-of-fuel result. See the Props file for which theorems are "
-          "complete and which are `_partial` (open lemma as explicit hypothesis)."),
+    note=("_get_insertion_index is modelled with fixes/c04-empty-table.diff (empty table -> 0); on the unrepaired tree "
+          "ordered_covering/minimise/minimise_table raise IndexError for the empty table with target None, reported as a "
+          "violation. minimise_equiv/minimiseTable_equiv assume every entry lists at least one source (sources=set() is "
+          "outside the documented domain: {None} means unknown); utils.table_is_subset_of/expand_entries are not modelled "
+          "(not part of the minimisers)."),
     technique="Lean 4 theorems over a hand-written model + differential correspondence + Lean spec as oracle")
 
 THEOREMS = ["removeDefault_equiv", "removeDefault_length", "removeDefault_target", "inv_routeEquiv", "inv_init",
             "apply_equiv", "insertionIndex_correct", "refine_ok", "orderedCovering_inv", "orderedCovering_equiv",
             "orderedCovering_target", "minimise_equiv", "runMethod_equiv", "runMethod_target", "minimiseTable_equiv",
-            "minimiseTable_failure", "minimiseTables_equiv", "oracle_decides", "oracle_counterexample"]
+            "minimiseTable_failure", "minimiseTable_best", "minimiseTables_equiv", "orderedCovering_total",
+            "runMethod_total", "minimiseTable_total", "orderedCovering_target_total", "minimiseTable_target_total",
+            "oracle_decides", "oracle_counterexample"]
 
 RULE = ("tables of 0-40 entries over 3-10 active key bits embedded at random positions of the 32-bit space (other "
         "positions all-X or fixed to a common value), ternary patterns with table-specific X density, orthogonal "
@@ -632,6 +641,7 @@ def run(ctx):
                 batch = []
         eval_cases(ctx, batch)
         ctx.tag("exhaustive_2bits_le4_3bits_le2")
+        ctx.exhaustive = True
         ctx.extra["exhaustive_scope"] = ("every orthogonal-or-sorted table of <= 4 entries over 2 key bits and of <= 2 entries "
                                          "over 3 key bits, two entry flavours (default-routable E<-W; N with unknown source)")
     shrink_findings(ctx)
